@@ -1087,7 +1087,15 @@ def c08_shapes(thorough):
   S['limited_intermediate'] = ([R('P', x, y, body=(Lit('A', x, y),), limit=0), R('Q', x, body=(Lit('B', x),), limit=7), R('T', x, body=(Lit('P', x, y), Lit('B', y))), R('U', x, body=(Lit('Q', x), Not(Lit('P', x, x)))),
                                 R('W', x, Aggr('Count', y), body=(Lit('B', x), Lit('P', x, y)), distinct=True)], ['P', 'Q'])
   S['functional'] = ([R('P', x, value=y, body=(Lit('A', x, y),)), R('Q', x, value=Bin('+', Call('P', x), N(1)), body=(Lit('B', x),)), R('T', x, Call('Q', x), body=(Lit('B', x),))], ['P', 'Q'])
+  # longer chains (plans with 4 and 6 intermediates), with a reduced annotation alphabet: none / @NoInject / @With+@NoInject / @Ground
+  def long_chain(k):
+    rs = [R('P0', x, y, body=(Lit('A', x, y),))]
+    for i in range(1, k):
+      rs.append(R('P%d' % i, y, x, body=(Lit('P%d' % (i - 1), x, y),)) if i % 2 else R('P%d' % i, x, Bin('+', y, N(1)), body=(Lit('P%d' % (i - 1), x, y), Lit('B', x))))
+    return rs + [R('T', x, y, body=(Lit('P%d' % (k - 1), x, y), Lit('P%d' % (k // 2), y, z)))]
+  S['chain4'] = (long_chain(4), ['P0', 'P1', 'P2', 'P3'], (0, 1, 6, 4))
   if thorough:
+    S['chain6'] = (long_chain(6), ['P%d' % i for i in range(6)], (0, 1, 4))
     S['three_chain'] = ([R('P', x, y, body=(Lit('A', x, y),)), R('Q', x, y, body=(Lit('P', y, x),)), R('S', x, body=(Lit('Q', x, y), Lit('B', y))), R('T', x, body=(Lit('S', x), Not(Lit('P', x, x))))], ['P', 'Q', 'S'])
     S['disjunctive_use'] = ([R('P', x, y, body=(Lit('A', x, y),)), R('Q', x, body=(Lit('B', x),)), R('T', x, body=(('or', ((Lit('P', x, y), Lit('Q', y)), (Lit('Q', x), Not(Lit('P', x, x))))),))], ['P', 'Q'])
   return S
@@ -1095,8 +1103,10 @@ def c08_shapes(thorough):
 
 def c08_cases(thorough):
   dbs = dbs_ab(2)
-  for name, (rules, inter) in c08_shapes(thorough).items():
-    for assign in itertools.product(range(len(PLAN_ANNS)), repeat=len(inter)):
+  for name, spec in c08_shapes(thorough).items():
+    rules, inter = spec[0], spec[1]
+    alphabet = spec[2] if len(spec) > 2 else range(len(PLAN_ANNS))
+    for assign in itertools.product(alphabet, repeat=len(inter)):
       anns = [Ann(PLAN_ANNS[a].replace('%s', p)) for a, p in zip(assign, inter) if PLAN_ANNS[a]]
       preds = ['T'] + list(inter) + [p for p in ('U', 'W') if any(isinstance(r, Rule) and r.pred == p for r in rules)]
       c = Case('PLAN/' + name, Program(anns + rules), preds, dbs=dbs, fact_dbs=[FACT_DBS_AB[2]], info=dict(shape=name, assign=assign, depth=2))
